@@ -378,7 +378,23 @@ class Connection(object):
             self._logger.debug('TX %d octets, remain %d octets (msg empty %s)', sent_size, len(
                 self.__tx_buf), up_empty)
         cont = (not buf_empty or not up_empty)
+        if not cont:
+            self.send_drained()
         return cont
+
+    def send_pending(self):
+        ''' Get the number of octets not yet written to the socket.
+
+        :return: The buffer use (octets).
+        :rtype: int.
+        '''
+        return len(self.__tx_buf)
+
+    def send_drained(self):
+        ''' A handler function to be used when all buffered data has been
+        written to the socket.
+        '''
+        pass
 
     def send_ready(self):
         ''' Called to indicate that :py:meth:`send_raw` will return non-empty.
@@ -533,7 +549,7 @@ class Messenger(Connection):
 
         :return: True if there are no data being processed RX or TX side.
         '''
-        return len(self.__rx_buf) == 0 and len(self.__tx_buf) == 0
+        return len(self.__rx_buf) == 0 and len(self.__tx_buf) == 0 and self.send_pending() == 0
 
     def set_on_session_start(self, func):
         ''' Set a callback to be run when this session is started.
@@ -1477,6 +1493,10 @@ class ContactHandler(Messenger, dbus.service.Object):
         # heuristic for when to attempt to put new segments in
         if buf_use < 5 * self._send_segment_size:
             self._process_queue_trigger()
+
+    def send_drained(self):
+        # data such as a final ACK or SESS_TERM may have delayed the close
+        self._check_sess_term()
 
     def _tx_teardown(self):
         ''' Clear the TX in-progress bundle state. '''
